@@ -3,8 +3,11 @@ pub mod model;
 pub mod ops;
 pub mod runner;
 pub mod codec_case;
+pub mod inchunk;
+pub mod evo_case;
 
-pub use model::ModelType;
+pub use model::{mv, ModelType, Opt};
+pub use inchunk::InChunk;
 pub use ops::{Ops, TypeOps};
 pub use runner::{run_main, Dispatch, Report};
 
